@@ -114,6 +114,10 @@ func drawCRSWorld(t *rapid.T, label string, nTargets int, opts ProgOpts, rulesOp
 		w.Put("crs/regex-assembly/exclude/"+name+".ra", joinLines(words))
 		excs = append(excs, name)
 	}
+	// the same base name in both directories: the lookup order (include first) must not depend on anything random
+	if chance(t, 25, label+"-shadow") {
+		w.Put("crs/regex-assembly/exclude/inc1.ra", "shadowed\nonlyinexclude\n")
+	}
 	opts.Includes = incs
 	opts.Excludes = excs
 	// assembly files and the rules file
@@ -312,6 +316,22 @@ func evalC03(sc *Scenario, sim *Sim) ([]Violation, bool, string) {
 		}
 		base := run(sb, sc.World, "", simrt.Plan{}, nil, false)
 		agree := true
+		// repeatability under one and the same schedule: anything that differs here is nondeterminism outside the seams
+		// (goroutines, pointers, process ids ...), which the simulator cannot steer but can observe
+		repeats := 1
+		if sc.Violation != nil && sc.Violation.Oracle == "repeatability" {
+			repeats = 60 // replay of such a finding: try harder to see it again
+		}
+		for k := 0; k < repeats && agree; k++ {
+			again := run(sb, sc.World, "", simrt.Plan{}, nil, false)
+			if kind, detail := describeDiff(base, again); kind != "" {
+				agree = false
+				viol = append(viol, Violation{Prop: "C03", Oracle: "repeatability",
+					Sig: fmt.Sprintf("C03/%s/%s/uncontrolled-nondeterminism", c.Name, kind),
+					Msg: fmt.Sprintf("`%s` gives different results in two runs under the identical schedule, clock and environment: a source of nondeterminism outside the seams", strings.Join(c.Argv, " ")),
+					Detail: detail})
+			}
+		}
 		for i, a := range p.Alts {
 			var out runOutcome
 			if a.Reloc != "" {
